@@ -12,6 +12,6 @@ for d in sorted(glob.glob("/verif/seeded/*/")):
             x = " ".join(map(str, x))
         return str(x).replace("\n", " ").replace("|", "\\|")
     chk = c.get("check", "")
-    verdict = "caught by another property's check (see meta.json)" if "but CAUGHT by ./check" in chk else "caught" if "-> CAUGHT" in chk and "MISSED" not in chk else ("missed at first; caught after strengthening" if "MISSED at first" in chk or ("MISSED" in chk and "CAUGHT" in chk) else ("MISSED" if "MISSED" in chk else "?"))
+    verdict = "obsolete (mechanism removed by later repairs)" if chk.startswith("OBSOLETE") else "caught by another property's check (see meta.json)" if "but CAUGHT by ./check" in chk else "caught" if "-> CAUGHT" in chk and "MISSED" not in chk else ("missed at first; caught after strengthening" if "MISSED at first" in chk or ("MISSED" in chk and "CAUGHT" in chk) else ("MISSED" if "MISSED" in chk else "?"))
     print("| %s | %s | %s | %s | %s | %s |" % (sid, m["property"], flat(m.get("summary", ""))[:260], flat(m.get("needs", ""))[:220],
           "yes" if c.get("result", "").startswith("demo passes") else "no", verdict))
